@@ -166,4 +166,18 @@ def declaredMethod (base : Option Str) (m : MethodDecl) : CMethod :=
 def declaredService (s : ServiceDecl) : CService :=
   { name := serviceName s.name, methods := s.methods.map (declaredMethod s.base) }
 
+/-- what "the compiler accepts the service" amounts to on this data, plus the one condition it
+does not check (`LiteralsClean`, open finding): every path parameter names a request property,
+distinct properties have distinct proto field names, literal parts are free of `{ } * :` -/
+def ValidMethod (base : Option Str) (m : MethodDecl) : Prop :=
+  LiteralsClean (resolvedPath base m.path) ∧ SnakeInjective m.req
+    ∧ ∀ n ∈ pathParamNames (resolvedPath base m.path), n ∈ m.req
+
+def ValidService (s : ServiceDecl) : Prop := ∀ m ∈ s.methods, ValidMethod s.base m
+
+instance (base : Option Str) (m : MethodDecl) : Decidable (ValidMethod base m) := by
+  unfold ValidMethod; infer_instance
+instance (s : ServiceDecl) : Decidable (ValidService s) := by
+  unfold ValidService; infer_instance
+
 end J5V.Pipe
